@@ -58,6 +58,15 @@ func c03Funs(thorough bool) []c03Fun {
 		{"closure-from-iterator-expression-then-loop-elsewhere", []string{"f = (a) -> {\n  g = id\n  for h <- elems([(x) -> x + a]) g = h\n  before = g(1)\n  t = lsum(100)\n  [before, g(1), t]\n}"}, []string{"3"}},
 		{"closure-from-generator-then-loop-elsewhere", []string{"f = (a) -> {\n  gen = () -> {\n    k = a * 2\n    yield () -> k + a\n  }\n  g = id\n  for h <- gen() g = h\n  before = g()\n  t = lsum(50)\n  for h <- gen() if t > 0 return [before, g(), h()]\n}"}, []string{"3"}},
 		{"closure-yielded-by-own-generator", []string{"f = (a) -> {\n  gen = () -> {\n    k = a * 2\n    yield () -> k + a\n  }\n  g = id\n  for h <- gen() g = h\n  before = g()\n  for i <- fromto(0, 50) t = [i, i]\n  [before, g()]\n}"}, []string{"3"}},
+		{"closure-from-abandoned-nested-generators", []string{
+			"mkg = () -> {\n  k = 7\n  yield () -> k\n  k = 8\n  yield () -> k\n}",
+			"relay = () -> for c <- mkg() yield c",
+			"firstc = () -> for c <- relay() return c",
+			"f = (a) -> {\n  g = firstc()\n  before = g()\n  s = 0\n  for x, y <- fromto(100, 100 + a), fromto(200, 203) s = s + x + y\n  [before, g(), s]\n}"}, []string{"3"}},
+		{"closure-from-abandoned-generator-then-zip", []string{
+			"mkg = () -> {\n  k = 7\n  yield () -> k\n  k = 8\n  yield () -> k\n}",
+			"firstd = () -> for c <- mkg() return c",
+			"f = (a) -> {\n  g = firstd()\n  before = g()\n  s = 0\n  for x, y <- fromto(0, a), elems(\"abc\") s = s + x\n  for x <- map(dbl, () -> fromto(0, a)) s = s + x\n  [before, g(), s]\n}"}, []string{"3"}},
 		{"errors-inside", []string{"f = (a) -> {\n  r = 0\n  for i <- fromto(0, 3) r = r + a / (i + 1)\n  r\n}"}, []string{"12"}},
 	}
 	// every expression body of at most 2 (quick) / 3 (thorough) nodes over the parameter and small constants
